@@ -1992,7 +1992,20 @@ def gen_hostile_tz_values(rng):
         yield {"op": "posixtz", "a": {"s": B(txt)}}
 
 
+def gen_extreme_leap_pairs():
+    """two leap records whose first is well formed and whose time difference does not fit 64 bits (or barely does), in both
+    orders and with both signs: every one must be refused (or accepted) by value, never by an overflowing subtraction"""
+    ty = [{"off": 0, "dst": 0, "des": B("UTC")}]
+    firsts = [0, 1, 2, 78796800, 2**62, I64MAX - 1, I64MAX]
+    seconds = [I64MIN, I64MIN + 1, I64MIN + 2, -(2**62) - 5, -2, -1, 0, I64MAX, I64MAX - 2419199, 2**62 + 2419199]
+    for x0 in firsts:
+        for x1 in seconds + [max(I64MIN, I64MIN + x0 - 1), max(I64MIN, I64MIN + x0), min(I64MAX, x0 + 2419199), min(I64MAX, x0 + 2419198)]:
+            for c0 in (1, -1):
+                yield zone_event({"tr": [], "ty": ty, "lp": [[x0, c0], [x1, c0 + 1]], "rule": {"k": "none"}})
+
+
 def gen_hostile_numbers(rng, n):
+    yield from gen_extreme_leap_pairs()
     yield from gen_zone_session(rng, gen_huge_type_list_zone(rng), nprobe=12, do_find=True)
     for c in list(range(0x7f, 0x100)) + [0, 1, 0x1f, 0x20, 0x2c, 0x2f, 0x3a, 0x40, 0x5b, 0x60, 0x7b]:
         for des in ([c, 65, 66], [65, 66, c], [c] * 7):
